@@ -46,6 +46,11 @@ const EVT_MESSAGE: Token = Token(0);
 const EVT_STATUS_UPDATE: Token = Token(1);
 const EVT_HEALTH_CHECK: Token = Token(2);
 
+// Upper bound on the number of batches answered per call to `process_events`. Bounding it
+// returns control to the caller (which checks for a termination request) even while requests
+// arrive faster than they can be answered.
+const MAX_BATCHES_PER_PASS: usize = 16;
+
 // Canned response to health check request
 const HTTP_RESPONSE: &str = "HTTP/1.1 200 OK\nContent-Length: 0\nConnection: close\n\n";
 
@@ -68,6 +73,8 @@ pub struct Server {
     responder_ietf: Responder,
     responder_classic: Responder,
     buf: [u8; 65_536],
+    // True when the previous pass stopped before the (edge-triggered) socket was drained
+    socket_backlog: bool,
     thread_name: String,
     srv_value: Vec<u8>,
 
@@ -162,6 +169,7 @@ impl Server {
             responder_ietf,
             responder_classic,
             buf: [0u8; 65_536],
+            socket_backlog: false,
             thread_name,
             srv_value,
             stats_pub_freq: stats_freq,
@@ -191,30 +199,57 @@ impl Server {
     /// called repeatedly in a loop to process requests.
     ///
     pub fn process_events(&mut self, events: &mut Events) {
+        // Requests left in the socket by the previous pass raise no new (edge-triggered)
+        // event, so don't wait for one
+        let timeout = if self.socket_backlog {
+            Some(Duration::from_millis(0))
+        } else {
+            self.poll_duration
+        };
+
         self.poll
-            .poll(events, self.poll_duration)
+            .poll(events, timeout)
             .expect("server event poll failed; cannot recover");
+
+        let mut socket_serviced = false;
 
         for msg in events.iter() {
             match msg.token() {
-                EVT_MESSAGE => loop {
-                    self.responder_ietf.reset();
-                    self.responder_classic.reset();
-
-                    let socket_now_empty = self.collect_requests();
-
-                    self.responder_ietf.send_responses(&mut self.socket, &mut self.stats_recorder);
-                    self.responder_classic.send_responses(&mut self.socket, &mut self.stats_recorder);
-
-                    if socket_now_empty {
-                        break;
-                    }
-                },
+                EVT_MESSAGE => {
+                    socket_serviced = true;
+                    self.drain_socket();
+                }
                 EVT_HEALTH_CHECK => self.handle_health_check(),
                 EVT_STATUS_UPDATE => self.send_client_stats(),
                 _ => unreachable!(),
             }
         }
+
+        if self.socket_backlog && !socket_serviced {
+            self.drain_socket();
+        }
+    }
+
+    // Answer queued requests, batch by batch, until the socket is empty or
+    // MAX_BATCHES_PER_PASS batches have been sent; in the latter case `socket_backlog`
+    // tells the next pass to carry on without waiting for a new readiness event.
+    fn drain_socket(&mut self) {
+        for _ in 0..MAX_BATCHES_PER_PASS {
+            self.responder_ietf.reset();
+            self.responder_classic.reset();
+
+            let socket_now_empty = self.collect_requests();
+
+            self.responder_ietf.send_responses(&mut self.socket, &mut self.stats_recorder);
+            self.responder_classic.send_responses(&mut self.socket, &mut self.stats_recorder);
+
+            if socket_now_empty {
+                self.socket_backlog = false;
+                return;
+            }
+        }
+
+        self.socket_backlog = true;
     }
 
     // Read and process client requests from socket until socket is empty or 'batch_size' number
